@@ -11,9 +11,16 @@
 (*    attached the entry is handed back (Err);                             *)
 (*  - attach takes effect at one instant (LinAttach); attaching while      *)
 (*    attached panics and changes nothing (LinAttachFail);                 *)
-(*  - dropping the attach handle detaches at one instant (LinDetach) and   *)
-(*    returns only after everything the detached sink had accepted has     *)
-(*    been handed to its output and flushed (DetachEnd);                   *)
+(*  - dropping the attach handle detaches at one instant (LinDetach), and  *)
+(*    routing is restored to the next destination only AFTER what the      *)
+(*    detached sink had accepted has been handed to its output and         *)
+(*    flushed: LinDetach is enabled only then, so no call on any thread    *)
+(*    can see the sink gone (try_append handing its entry back or reaching *)
+(*    the next sink, is_attached() = false, a replacement attach           *)
+(*    succeeding) while accepted entries are still unwritten; the drop     *)
+(*    returns after that instant (DetachEnd);                              *)
+(*  - is_attached() reads whether a sink is attached at one instant        *)
+(*    between its call and its return (LinObs);                            *)
 (*  - an output only ever sees entries its sink accepted, each once.       *)
 (* Nothing about locks, queues, writer threads.                            *)
 (*                                                                         *)
@@ -34,10 +41,11 @@ VARIABLES
     nexted,    \* sink -> sequence of entries handed to its output
     nflushed,  \* sink -> length of the flushed prefix of nexted
     closedS,   \* sinks whose output has been closed
-    astate     \* sink -> "new" | "attaching" | "attlin" | "held" | "faillin" | "failed"
+    astate,    \* sink -> "new" | "attaching" | "attlin" | "held" | "faillin" | "failed"
                \*         | "detaching" | "detlin" | "detached"
+    obs        \* observer -> "pend" | "yes" | "no": an is_attached() call in progress and what it read
 
-dvars == <<aatt, pendApp, linApp, okd, errd, accepted, nexted, nflushed, closedS, astate>>
+dvars == <<aatt, pendApp, linApp, okd, errd, accepted, nexted, nflushed, closedS, astate, obs>>
 
 SeqRange(s) == {s[i] : i \in 1..Len(s)}
 Flushed(s) == {nexted[s][i] : i \in 1..nflushed[s]}
@@ -45,65 +53,77 @@ Flushed(s) == {nexted[s][i] : i \in 1..nflushed[s]}
 DInit(S) ==
     /\ aatt = 0 /\ pendApp = {} /\ linApp = {} /\ okd = {} /\ errd = {}
     /\ accepted = [s \in S |-> {}] /\ nexted = [s \in S |-> <<>>] /\ nflushed = [s \in S |-> 0]
-    /\ closedS = {} /\ astate = [s \in S |-> "new"]
+    /\ closedS = {} /\ astate = [s \in S |-> "new"] /\ obs = <<>>
 
 \* ---- try_append -------------------------------------------------------------
 TryStart(p, e) ==
     /\ pendApp' = pendApp \cup {<<p, e>>}
-    /\ UNCHANGED <<aatt, linApp, okd, errd, accepted, nexted, nflushed, closedS, astate>>
+    /\ UNCHANGED <<aatt, linApp, okd, errd, accepted, nexted, nflushed, closedS, astate, obs>>
 
 LinApp(p, e) ==
     /\ <<p, e>> \in pendApp
     /\ pendApp' = pendApp \ {<<p, e>>}
     /\ linApp' = linApp \cup {<<p, e, aatt>>}
     /\ accepted' = IF aatt # 0 THEN [accepted EXCEPT ![aatt] = @ \cup {e}] ELSE accepted
-    /\ UNCHANGED <<aatt, okd, errd, nexted, nflushed, closedS, astate>>
+    /\ UNCHANGED <<aatt, okd, errd, nexted, nflushed, closedS, astate, obs>>
 
 TryEnd(p, e, ok) ==
     /\ \E d \in DOMAIN accepted \cup {0} : <<p, e, d>> \in linApp /\ (ok <=> d # 0)
     /\ linApp' = {x \in linApp : ~(x[1] = p /\ x[2] = e)}
     /\ okd' = IF ok THEN okd \cup {e} ELSE okd
     /\ errd' = IF ok THEN errd ELSE errd \cup {e}
-    /\ UNCHANGED <<aatt, pendApp, accepted, nexted, nflushed, closedS, astate>>
+    /\ UNCHANGED <<aatt, pendApp, accepted, nexted, nflushed, closedS, astate, obs>>
 
 \* ---- attach -------------------------------------------------------------------
 AttachStart(s) ==
     /\ astate[s] = "new" /\ astate' = [astate EXCEPT ![s] = "attaching"]
-    /\ UNCHANGED <<aatt, pendApp, linApp, okd, errd, accepted, nexted, nflushed, closedS>>
+    /\ UNCHANGED <<aatt, pendApp, linApp, okd, errd, accepted, nexted, nflushed, closedS, obs>>
 
 LinAttach(s) ==
     /\ astate[s] = "attaching" /\ aatt = 0
     /\ aatt' = s /\ astate' = [astate EXCEPT ![s] = "attlin"]
-    /\ UNCHANGED <<pendApp, linApp, okd, errd, accepted, nexted, nflushed, closedS>>
+    /\ UNCHANGED <<pendApp, linApp, okd, errd, accepted, nexted, nflushed, closedS, obs>>
 
 LinAttachFail(s) ==
     /\ astate[s] = "attaching" /\ aatt # 0
     /\ astate' = [astate EXCEPT ![s] = "faillin"]
-    /\ UNCHANGED <<aatt, pendApp, linApp, okd, errd, accepted, nexted, nflushed, closedS>>
+    /\ UNCHANGED <<aatt, pendApp, linApp, okd, errd, accepted, nexted, nflushed, closedS, obs>>
 
 \* attach returned a handle (ok) or panicked (~ok)
 AttachEnd(s, ok) ==
     /\ astate[s] = IF ok THEN "attlin" ELSE "faillin"
     /\ astate' = [astate EXCEPT ![s] = IF ok THEN "held" ELSE "failed"]
-    /\ UNCHANGED <<aatt, pendApp, linApp, okd, errd, accepted, nexted, nflushed, closedS>>
+    /\ UNCHANGED <<aatt, pendApp, linApp, okd, errd, accepted, nexted, nflushed, closedS, obs>>
 
 \* ---- drop of the attach handle ------------------------------------------------
 DetachStart(s) ==
     /\ astate[s] = "held" /\ astate' = [astate EXCEPT ![s] = "detaching"]
-    /\ UNCHANGED <<aatt, pendApp, linApp, okd, errd, accepted, nexted, nflushed, closedS>>
-
-LinDetach(s) ==
-    /\ astate[s] = "detaching" /\ aatt = s
-    /\ aatt' = 0 /\ astate' = [astate EXCEPT ![s] = "detlin"]
-    /\ UNCHANGED <<pendApp, linApp, okd, errd, accepted, nexted, nflushed, closedS>>
+    /\ UNCHANGED <<aatt, pendApp, linApp, okd, errd, accepted, nexted, nflushed, closedS, obs>>
 
 \* "... after flushing what the detached sink had accepted"
 DetachFlushed(s) == accepted[s] \subseteq Flushed(s)
 
+LinDetach(s) ==
+    /\ astate[s] = "detaching" /\ aatt = s
+    /\ DetachFlushed(s)                       \* routing changes only after the flush
+    /\ aatt' = 0 /\ astate' = [astate EXCEPT ![s] = "detlin"]
+    /\ UNCHANGED <<pendApp, linApp, okd, errd, accepted, nexted, nflushed, closedS, obs>>
+
 DetachEnd(s) ==
     /\ astate[s] = "detlin" /\ DetachFlushed(s)
     /\ astate' = [astate EXCEPT ![s] = "detached"]
-    /\ UNCHANGED <<aatt, pendApp, linApp, okd, errd, accepted, nexted, nflushed, closedS>>
+    /\ UNCHANGED <<aatt, pendApp, linApp, okd, errd, accepted, nexted, nflushed, closedS, obs>>
+
+\* ---- is_attached() ---------------------------------------------------------------
+ObsStart(p) ==
+    /\ p \notin DOMAIN obs /\ obs' = obs @@ (p :> "pend")
+    /\ UNCHANGED <<aatt, pendApp, linApp, okd, errd, accepted, nexted, nflushed, closedS, astate>>
+LinObs(p) ==
+    /\ p \in DOMAIN obs /\ obs[p] = "pend" /\ obs' = [obs EXCEPT ![p] = IF aatt # 0 THEN "yes" ELSE "no"]
+    /\ UNCHANGED <<aatt, pendApp, linApp, okd, errd, accepted, nexted, nflushed, closedS, astate>>
+ObsEnd(p, v) ==
+    /\ p \in DOMAIN obs /\ obs[p] = v /\ obs' = [q \in DOMAIN obs \ {p} |-> obs[q]]
+    /\ UNCHANGED <<aatt, pendApp, linApp, okd, errd, accepted, nexted, nflushed, closedS, astate>>
 
 \* ---- the sinks' outputs ---------------------------------------------------------
 AllNexted == UNION {SeqRange(nexted[s]) : s \in DOMAIN nexted}
@@ -112,16 +132,16 @@ AllNexted == UNION {SeqRange(nexted[s]) : s \in DOMAIN nexted}
 Next(s, e) ==
     /\ e \in accepted[s] /\ e \notin AllNexted /\ s \notin closedS
     /\ nexted' = [nexted EXCEPT ![s] = Append(@, e)]
-    /\ UNCHANGED <<aatt, pendApp, linApp, okd, errd, accepted, nflushed, closedS, astate>>
+    /\ UNCHANGED <<aatt, pendApp, linApp, okd, errd, accepted, nflushed, closedS, astate, obs>>
 
 Flush(s) ==
     /\ s \notin closedS
     /\ nflushed' = [nflushed EXCEPT ![s] = Len(nexted[s])]
-    /\ UNCHANGED <<aatt, pendApp, linApp, okd, errd, accepted, nexted, closedS, astate>>
+    /\ UNCHANGED <<aatt, pendApp, linApp, okd, errd, accepted, nexted, closedS, astate, obs>>
 
 Close(s) ==
     /\ s \notin closedS /\ closedS' = closedS \cup {s}
-    /\ UNCHANGED <<aatt, pendApp, linApp, okd, errd, accepted, nexted, nflushed, astate>>
+    /\ UNCHANGED <<aatt, pendApp, linApp, okd, errd, accepted, nexted, nflushed, astate, obs>>
 
 \* every call has returned and every attached sink has been detached again: every entry is
 \* in exactly one place (the output of one sink, or back with its caller)
